@@ -72,6 +72,17 @@ def f(x, y):
     return one(m, z), list(zip([x], [y], strict=False)), list(t for t in range(y))
 """, [(1, 2), (-3, 1), (0, 0)]),
 ("""
+from functools import reduce
+import functools
+def f(x, y):
+    t = reduce(lambda acc, i: acc * 2 + i, range(x), y)
+    u = functools.reduce(lambda a, b: a + [b * t], [1, 2, y], [])
+    t = reduce(lambda t0, i: t0 - i, [x, y], t)
+    def g(z):
+        return reduce(lambda p, q: p * q, range(1, z + 1), 1)
+    return t, u, g(x % 5)
+""", [(3, 1), (0, 2), (4, -1)]),
+("""
 import math
 def f(x, y):
     if y == 2 ** (lv := int(math.log(max(y, 1), 2))):
